@@ -271,6 +271,8 @@ pub fn c08_leaf(env: &mut Env, leaf: &Leaf) {
     env.stats.traces += 1;
     let dir = env.scratch2.path.clone();
     let faults = inplace_faults(&d);
+    let nfaults = faults.len();
+    env.stats.sample(|| json!({"engine": "damage", "seed": leaf.seed.name, "ops": leaf.ops.iter().map(|o| o.short()).collect::<Vec<_>>(), "wal_files": d.image.len(), "frames": d.frames.len(), "faults_enumerated": nfaults, "first_fault": faults.first().map(|f| f.1.clone())}));
     for (patch, descr, on_emb_carrier) in faults {
         let Some(img) = apply_patch(&d.image, &patch) else { continue };
         env.stats.evaluations += 1;
@@ -397,6 +399,7 @@ pub fn c09_leaf(env: &mut Env, leaf: &Leaf) {
     };
     env.stats.traces += 1;
     let dir = env.scratch2.path.clone();
+    env.stats.sample(|| json!({"engine": "damage-frame", "seed": leaf.seed.name, "ops": leaf.ops.iter().map(|o| o.short()).collect::<Vec<_>>(), "wal_files": d.image.len(), "frames": d.frames.iter().map(|f| format!("{}@{}+{} by op {}", f.file, f.offset, f.len, f.op)).collect::<Vec<_>>()}));
     for f in &d.frames {
         let lost: Vec<(String, u64, Vec<u8>)> = d.op_records.get(&f.op).cloned().unwrap_or_default();
         for (patch, descr) in frame_faults(&d, f) {
